@@ -2,7 +2,7 @@
    entry list in ANY order with pairwise distinct members, the loop records exactly the sent values;
    the finishing pass reports unsent optional members absent and a missing required member as
    SerdeMissingField.  Generic in the element decoder (C01, C05, C06 core). *)
-From Ctap Require Import Base Schema Wire Utf8 Typed CborItem WireP SkipP TypedP.
+From Ctap Require Import Base Schema Wire Utf8 Typed WellTyped CborItem WireP SkipP TypedP.
 From Coq Require Import Lia.
 Local Open Scope Z_scope.
 
@@ -13,7 +13,6 @@ Definition en_label (en : entry) : string := f_label (en_fd en).
 Definition en_item_idx (en : entry) : string * val :=
   (en_label en, if f_opt (en_fd en) then VSome (en_val en) else en_val en).
 
-Definition idx_key (fd : field) : Z := match f_key fd with KInt z => z | KText _ => -1 end.
 Definition enc_idx_entry (en : entry) : bytes := put_head 0 (idx_key (en_fd en)) ++ en_enc en.
 
 (* the element decoder returns the entry's value on the entry's encoding, whatever follows *)
